@@ -285,6 +285,7 @@ def explore(harness, params=None, open_findings=(), budget_s=300.0, per_path_s=3
             for h in _RESET_HOOKS:
                 h()
             del z3str.PINNED[:]
+            z3str.PIN_COUNT[0] = 0
             del arrstr.SUBST[:]
             start = time.process_time()
             space = StateSpace(
